@@ -1,6 +1,7 @@
 (* Properties/C17.v — Ticks are few enough, nice, ascending, inside the domain; Nice only expands.
    ONLY statements; each is closed by [exact] of a lemma from Proofs/Ticks*.v. *)
-From MM Require Import Base.Num Model.Ticks Proofs.Ticks.
+From Coq Require Import Sorted.
+From MM Require Import Base.Num Model.Ticks Proofs.Ticks Proofs.TicksLinear Proofs.TicksLog Check.C17 Proofs.TicksCheck.
 Local Open Scope Z_scope.
 
 (* ================= FindLevel (ticks.go:56-101) ================= *)
@@ -44,3 +45,185 @@ Example C17_find_level_example :
   find_level (mkOpts 0 0 0) cnt 1 = FL_fail /\
   find_level (mkOpts 3 2 1) cnt 1 = FL_fail.
 Proof. vm_compute. repeat split; reflexivity. Qed.
+
+(* ================= Linear ticks (linear.go:81-150, vec.Linspace) ================= *)
+Section Linear.
+Local Open Scope Q_scope.
+
+(* level -> spacing: each level's spacing is an integer multiple (x1, x2, x5 or xBase) of the
+   previous level's; it is a power of the base, or 5 times a power of ten when Base = 0 *)
+Theorem C17_linear_spacing : forall base eb l, lin_ebase base = Some eb ->
+  (exists m : Z, (1 <= m)%Z /\ lin_spacing base eb (l + 1) == inject_Z m * lin_spacing base eb l) /\
+  (lin_spacing base eb l == qpow eb (l / 2) \/ (base = 0%Z /\ lin_spacing base eb l == 5 * qpow 10 (l / 2))).
+Proof. intros base eb l H. split; [exact (spacing_divides_next base eb l H) | exact (lin_spacing_form base eb l H)]. Qed.
+Print Assumptions C17_linear_spacing.
+
+(* TicksAtLevel(l) is exactly the set of integer multiples of the level's spacing inside the
+   domain widened by the slack the code grants itself (1e-10 of the width), in ascending
+   order, and CountTicks(l) is its length — at EVERY level *)
+Theorem C17_linear_ticks_at_level : forall base eb mn mx l, lin_ebase base = Some eb -> mn <= mx ->
+  (forall v, In v (lin_ticks_at base eb mn mx false l) <->
+             exists k : Z, v = inject_Z k * lin_spacing base eb l /\ in_range mn mx v) /\
+  StronglySorted Qlt (lin_ticks_at base eb mn mx false l) /\
+  lin_count base eb mn mx false l = Z.of_nat (length (lin_ticks_at base eb mn mx false l)).
+Proof. intros base eb mn mx l He Ho. split; [|split].
+  - intros v. exact (lin_ticks_at_spec base eb mn mx He Ho l v).
+  - exact (lin_ticks_ascending base eb mn mx He l).
+  - exact (lin_count_is_length base eb mn mx He Ho l). Qed.
+Print Assumptions C17_linear_ticks_at_level.
+
+(* ticks are nested (every tick of level l+1 is a tick of level l) and therefore the count is
+   non-increasing in the level, on every window *)
+Theorem C17_linear_nested_and_monotone : forall base eb mn mx, lin_ebase base = Some eb -> mn <= mx ->
+  (forall l v, In v (lin_ticks_at base eb mn mx false (l + 1)) ->
+               exists w, In w (lin_ticks_at base eb mn mx false l) /\ w == v) /\
+  (forall lo hi, nonincreasing (lin_count base eb mn mx false) lo hi).
+Proof. intros base eb mn mx He Ho. split.
+  - intros l v. exact (lin_ticks_nested base eb mn mx He Ho l v).
+  - intros lo hi. exact (lin_count_nonincreasing base eb mn mx lo hi He Ho). Qed.
+Print Assumptions C17_linear_nested_and_monotone.
+
+(* Ticks(o) for Min < Max: major = TicksAtLevel(l), minor = TicksAtLevel(l-1) where l is the
+   LOWEST level of the window with at most Max ticks (finest level that fits), so there are at
+   most Max major ticks — from whatever guess the search starts *)
+Theorem C17_linear_ticks : forall base mn mx o guess major minor lo hi,
+  mn < mx -> level_bounds o = Some (lo, hi) ->
+  lin_ticks base mn mx o guess = TR_ticks major minor ->
+  exists eb l, lin_ebase base = Some eb /\ (lo <= l <= hi)%Z /\
+    major = lin_ticks_at base eb mn mx false l /\ minor = lin_ticks_at base eb mn mx false (l - 1) /\
+    (Z.of_nat (length major) <= o_max o)%Z /\
+    forall l', (lo <= l' < l)%Z -> (o_max o < Z.of_nat (length (lin_ticks_at base eb mn mx false l')))%Z.
+Proof. exact lin_ticks_correct. Qed.
+Print Assumptions C17_linear_ticks.
+
+(* ... and no ticks are returned exactly when no level of the window fits *)
+Theorem C17_linear_ticks_none_iff : forall base eb mn mx o guess,
+  mn < mx -> lin_ebase base = Some eb -> (1 <= o_max o)%Z ->
+  (lin_ticks base mn mx o guess = TR_none <->
+   level_bounds o = None \/
+   exists lo hi, level_bounds o = Some (lo, hi) /\
+     forall l, (lo <= l <= hi)%Z -> (o_max o < Z.of_nat (length (lin_ticks_at base eb mn mx false l)))%Z).
+Proof. exact lin_ticks_none_iff. Qed.
+Print Assumptions C17_linear_ticks_none_iff.
+
+(* Nice never shrinks the domain (any options; when no level fits the domain stays), and
+   moves each end by less than one spacing of the level it chose, onto a multiple of it *)
+Theorem C17_linear_nice_expands : forall base mn mx o guess a b,
+  lin_nice base mn mx o guess = NR_dom a b ->
+  let '(smn, smx) := nice_start mn mx in a <= smn /\ smx <= b.
+Proof. exact lin_nice_expands. Qed.
+Print Assumptions C17_linear_nice_expands.
+
+Theorem C17_linear_nice_adds_less_than_one_spacing : forall base eb mn mx o guess a b,
+  lin_ebase base = Some eb ->
+  lin_nice base mn mx o guess = NR_dom a b ->
+  let '(smn, smx) := nice_start mn mx in
+  (a == smn /\ b == smx) \/
+  exists l, find_level o (lin_count base eb smn smx true) guess = FL_ok l /\
+    let sp := lin_spacing base eb l in
+    smn - a < sp /\ b - smx < sp /\
+    (a == smn \/ exists k : Z, a = inject_Z k * sp) /\ (b == smx \/ exists k : Z, b = inject_Z k * sp).
+Proof. exact lin_nice_adds_less_than_one_spacing. Qed.
+Print Assumptions C17_linear_nice_adds_less_than_one_spacing.
+
+(* non-vacuity: [0.3, 2.7] (exact rationals), Max = 4 -> major 1, 2 at level 0, minor every 0.5;
+   Nice -> [0, 3]; a domain around 0 with Max = 2 has no fitting level: Nice leaves it (D10) *)
+Example C17_linear_example :
+  match lin_ticks 0 (3 # 10) (27 # 10) (mkOpts 4 0 0) 5 with
+  | TR_ticks ma mi => map Qred ma = [1; 2] /\ map Qred mi = [1 # 2; 1; 3 # 2; 2; 5 # 2]
+  | _ => False end /\
+  match lin_nice 0 (3 # 10) (27 # 10) (mkOpts 4 0 0) 5 with
+  | NR_dom a b => Qred a = 0 /\ Qred b = 3 | _ => False end /\
+  lin_count 0 10 (-1) 2 true 0 = 4%Z /\ lin_count 0 10 (-1) 2 true 7 = 3%Z.
+Proof. vm_compute. repeat split; reflexivity. Qed.
+End Linear.
+
+(* ================= Log ticks (log.go:111-207) ================= *)
+(* A Log scale's tick positions are powers of Base.  [log_exps] computes once per scale the
+   interval [in_lo, in_hi] of admitted exponents (domain ends with the slack of log.go:118-128);
+   level l >= 0 keeps the exponents that are multiples of 2^l, i.e. powers of Base^(2^l). *)
+Section Log.
+Local Open Scope Z_scope.
+
+(* TicksAtLevel(l), l >= 0: exactly the powers Base^(n 2^l) with an admitted exponent, in
+   ascending order; CountTicks(l) is its length *)
+Theorem C17_log_ticks_at_level : forall b e emin emax l, 2 <= b -> le_in_lo e <= le_in_hi e + 1 -> 0 <= l ->
+  (forall v, In v (log_ticks_pos b e emin emax false l) <->
+             exists n, v = qpow b (n * 2 ^ l) /\ le_in_lo e <= n * 2 ^ l <= le_in_hi e) /\
+  StronglySorted Qlt (log_ticks_pos b e emin emax false l) /\
+  log_count e false l = Z.of_nat (length (log_ticks_pos b e emin emax false l)).
+Proof. intros b e emin emax l Hb He Hl. split; [|split].
+  - intros v. exact (log_ticks_pos_spec b e emin emax He l v Hl).
+  - exact (log_ticks_pos_ascending b e emin emax Hb l Hl).
+  - exact (log_count_is_length b e emin emax He l Hl). Qed.
+Print Assumptions C17_log_ticks_at_level.
+
+(* each level eliminates ticks of the level below, so the count is non-increasing on every
+   window (levels below 0 report maxInt) *)
+Theorem C17_log_nested_and_monotone : forall b e emin emax, le_in_lo e <= le_in_hi e + 1 ->
+  (forall l v, 0 <= l -> In v (log_ticks_pos b e emin emax false (l + 1)) -> In v (log_ticks_pos b e emin emax false l)) /\
+  (log_count e false 0 <= MAXINT -> forall lo hi, nonincreasing (log_count e false) lo hi).
+Proof. intros b e emin emax He. split.
+  - intros l v Hl. exact (log_ticks_nested b e emin emax He l v Hl).
+  - intros H0 lo hi. exact (log_count_nonincreasing e He lo hi H0). Qed.
+Print Assumptions C17_log_nested_and_monotone.
+
+(* Ticks(o) on a positive domain Min < Max: major = TicksAtLevel(l), minor = TicksAtLevel(l-1)
+   for the LOWEST level of the window with at most Max ticks *)
+Theorem C17_log_ticks : forall b mn mx o major minor lo hi,
+  2 <= b -> (0 < mn)%Q -> (mn < mx)%Q -> level_bounds o = Some (lo, hi) ->
+  let e := log_exps b mn mx in
+  le_in_lo e <= le_in_hi e + 1 -> log_count e false 0 <= MAXINT ->
+  log_ticks b mn mx o = TR_ticks major minor ->
+  exists l, lo <= l <= hi /\
+    major = log_ticks_pos b e mn mx false l /\ minor = log_ticks_pos b e mn mx false (l - 1) /\
+    log_count e false l <= o_max o /\
+    (forall l', lo <= l' < l -> o_max o < log_count e false l') /\
+    (0 <= l -> Z.of_nat (length major) <= o_max o).
+Proof. exact log_ticks_correct. Qed.
+Print Assumptions C17_log_ticks.
+
+(* Nice never shrinks the domain (any sign, any options; when no level fits, or the nice
+   bound would not be a positive finite float64, the end stays), and an end that moves lands
+   on a power of the base *)
+Theorem C17_log_nice_expands : forall b mn mx o a c, (mn <= mx)%Q ->
+  log_nice b mn mx o = (a, c) -> (a <= mn /\ mx <= c)%Q.
+Proof. exact log_nice_expands. Qed.
+Print Assumptions C17_log_nice_expands.
+
+Theorem C17_log_nice_ends_are_powers : forall b mn mx o a c, (0 < mn)%Q -> (mn < mx)%Q ->
+  log_nice b mn mx o = (a, c) ->
+  (a = mn \/ exists n, a = qpow b n /\ f64_pos_ok a = true) /\
+  (c = mx \/ exists n, c = qpow b n /\ f64_pos_ok c = true).
+Proof. exact log_nice_ends_are_powers. Qed.
+Print Assumptions C17_log_nice_ends_are_powers.
+
+(* non-vacuity: [3, 20000] base 10: exponents 1..4; Max = 2 -> level 1 (100, 10000), minor = level 0;
+   Max = 5 -> level 0 with the 2..9 multiples as minor ticks; Nice(Max 3) -> [1, 10^8] (level 2, 3 ticks);
+   negative domain mirrored; Max = 1 never fits when rounding out: domain unchanged (D10) *)
+Example C17_log_example :
+  log_ticks 10 3 20000 (mkOpts 2 0 0) = TR_ticks [100%Q; 10000%Q] [10%Q; 100%Q; 1000%Q; 10000%Q] /\
+  match log_ticks 10 3 20000 (mkOpts 5 0 0) with
+  | TR_ticks ma mi => ma = [10%Q; 100%Q; 1000%Q; 10000%Q] /\ length mi = 36%nat /\ hd 0%Q mi = (3 * 1)%Q
+  | _ => False end /\
+  log_nice 10 3 20000 (mkOpts 3 0 0) = (1%Q, 100000000%Q) /\
+  log_nice 10 (-20000) (-3) (mkOpts 3 0 0) = ((-100000000)%Q, (-1)%Q) /\
+  log_nice 10 3 20000 (mkOpts 1 0 0) = (3%Q, 20000%Q).
+Proof. vm_compute. repeat split; reflexivity. Qed.
+End Log.
+
+(* ================= the check decides the model ================= *)
+(* Check/C17.v runs the level search on capped count functions (so that a search that climbs
+   to level 1000 stays cheap); they are extensionally equal to the model's counts, hence the
+   check evaluates exactly lin_ticks, lin_nice, log_ticks and log_nice *)
+Theorem C17_check_runs_the_model : forall base b mn mx o g,
+  lin_ticks_gen lin_count_capped base mn mx o g = lin_ticks base mn mx o g /\
+  lin_nice_gen lin_count_capped base mn mx o g = lin_nice base mn mx o g /\
+  log_ticks_gen log_count_capped b mn mx o = log_ticks b mn mx o /\
+  log_nice_gen log_count_capped b mn mx o = log_nice b mn mx o.
+Proof. intros base b mn mx o g. split; [|split; [|split]].
+  - exact (lin_ticks_capped_eq base mn mx o g).
+  - exact (lin_nice_capped_eq base mn mx o g).
+  - exact (log_ticks_capped_eq b mn mx o).
+  - exact (log_nice_capped_eq b mn mx o). Qed.
+Print Assumptions C17_check_runs_the_model.
